@@ -3,5 +3,5 @@ From Coq Require Import NArith ZArith List Extraction ExtrOcamlBasic.
 From Kenlm Require Import Gen.Spaces C10.ArpaModel.
 Extraction Language OCaml.
 Extraction "extracted/c10_model.ml"
-  parse_arpa parse_arpa_text is_binary_file check_binary_header string_to_float read_float read_arpa_counts
+  parse_arpa parse_arpa_text is_binary_file check_binary_header check_binary_size total_header_size string_to_float read_float read_arpa_counts
   Z.of_N Z.to_N.   (* Z is needed by the shared driver glue (ocaml/zio.ml.inc) *)
